@@ -623,3 +623,153 @@ func tableEntryInt(g *ssa.Global, key string, field int) (int64, bool) {
 	}
 	return 0, false
 }
+
+// regexpPattern: the constant pattern behind a *regexp.Regexp value (see regexpGroups).
+func regexpPattern(v ssa.Value) (string, bool) {
+	v = eng.StripConv(v)
+	if u, ok := v.(*ssa.UnOp); ok && u.Op == token.MUL {
+		if g, ok := u.X.(*ssa.Global); ok {
+			if init := g.Pkg.Func("init"); init != nil {
+				var found ssa.Value
+				eng.EachInstr(init, func(in ssa.Instruction) {
+					if st, ok := in.(*ssa.Store); ok && st.Addr == ssa.Value(g) {
+						found = st.Val
+					}
+				})
+				if found != nil {
+					return regexpPattern(found)
+				}
+			}
+			return "", false
+		}
+	}
+	call, ok := v.(*ssa.Call)
+	if !ok {
+		return "", false
+	}
+	switch eng.CalleeName(call.Common()) {
+	case "regexp.MustCompile", "regexp.Compile":
+	default:
+		return "", false
+	}
+	return eng.ConstString(call.Call.Args[0])
+}
+
+// capturesUnderRepetition lists the capture groups of pat that sit inside a repeated
+// sub-expression (x*, x+, x{n,m} with m != 1): a submatch keeps only what the group matched in
+// its last iteration, so code that expects one value per occurrence sees only the last.
+func capturesUnderRepetition(pat string) []int {
+	re, err := syntax.Parse(pat, syntax.Perl)
+	if err != nil {
+		return nil
+	}
+	var out []int
+	var walk func(n *syntax.Regexp, rep bool)
+	walk = func(n *syntax.Regexp, rep bool) {
+		switch n.Op {
+		case syntax.OpCapture:
+			if rep {
+				out = append(out, n.Cap)
+			}
+		case syntax.OpStar, syntax.OpPlus:
+			rep = true
+		case syntax.OpRepeat:
+			if n.Max != 1 {
+				rep = true
+			}
+		}
+		for _, s := range n.Sub {
+			walk(s, rep)
+		}
+	}
+	walk(re, false)
+	return out
+}
+
+// paramRegexp decides, for a server package, that no constant regular expression whose
+// submatches are read by the package has a capture group under a repetition.
+func (c *Ctx) paramRegexp(rule, rel string, floor int) {
+	p, r := c.P, c.R
+	r.Rule(rule, rel+": no constant regexp used with Find…Submatch has a capture group inside a repeated sub-expression (only the last iteration's text would be kept)")
+	n := 0
+	ord := map[string]int{}
+	for _, fn := range pkgFuncs(p, rel) {
+		fn := fn
+		eng.EachInstr(fn, func(in ssa.Instruction) {
+			call, ok := in.(*ssa.Call)
+			if !ok || len(call.Call.Args) == 0 {
+				return
+			}
+			nm := eng.CalleeName(call.Common())
+			if !strings.HasPrefix(nm, "(*regexp.Regexp).Find") || !strings.Contains(nm, "Submatch") {
+				return
+			}
+			pat, isC := regexpPattern(call.Call.Args[0])
+			if !isC {
+				return
+			}
+			n++
+			cons := siteCons(p, in, ord, "submatch")
+			// the groups the code reads: constant indices into the submatch (or, for FindAll…,
+			// into its elements)
+			read := map[int]bool{}
+			seenV := map[ssa.Value]bool{}
+			var follow func(v ssa.Value, depth int)
+			follow = func(v ssa.Value, depth int) {
+				if depth > 6 || seenV[v] || v.Referrers() == nil {
+					return
+				}
+				seenV[v] = true
+				for _, ref := range *v.Referrers() {
+					switch x := ref.(type) {
+					case *ssa.IndexAddr:
+						if et, isP := x.Type().Underlying().(*types.Pointer); isP {
+							if bt, isB := et.Elem().Underlying().(*types.Basic); isB && bt.Kind() == types.String {
+								if k, isK := eng.ConstInt(x.Index); isK {
+									read[int(k)] = true
+								}
+								continue
+							}
+						}
+						follow(x, depth+1)
+					case *ssa.Index:
+						if bt, isB := x.Type().Underlying().(*types.Basic); isB && bt.Kind() == types.String {
+							if k, isK := eng.ConstInt(x.Index); isK {
+								read[int(k)] = true
+							}
+							continue
+						}
+						follow(x, depth+1)
+					case *ssa.Range:
+						follow(x, depth+1)
+					case *ssa.Next:
+						follow(x, depth+1)
+					case *ssa.Extract:
+						follow(x, depth+1)
+					case *ssa.UnOp:
+						follow(x, depth+1)
+					case *ssa.Phi:
+						follow(x, depth+1)
+					case *ssa.Store:
+						if al, isAl := x.Addr.(*ssa.Alloc); isAl && x.Val == v {
+							follow(al, depth+1)
+						}
+					}
+				}
+			}
+			follow(call, 0)
+			var caps []int
+			for _, k := range capturesUnderRepetition(pat) {
+				if read[k] {
+					caps = append(caps, k)
+				}
+			}
+			if len(caps) > 0 {
+				r.Bad(rule, cons, p.InstrPos(in), "capture group(s) %v of %q sit inside a repetition: when the repeated part matches several times (several ESMTP parameters in one command) the submatch holds only the last occurrence, and the earlier ones — a SIZE= that is not the last parameter — are never looked at", caps, pat)
+			} else {
+				r.Ok(rule, cons, p.InstrPos(in), "no capture group under a repetition")
+			}
+		})
+	}
+	r.Floor(rule, "submatch calls on constant patterns", n, floor)
+}
